@@ -155,6 +155,7 @@ Valid(r, s) ==
     [] r.name = "magic_square"    -> IsMagicSquare(r.args[1], s)
     [] r.name = "magic_sequence"  -> IsMagicSequence(r.args[1], s)
     [] r.name = "golomb"          -> IsGolomb(r.args[1], s)
+    [] r.name = "golomb_bounded"  -> IsGolomb(r.args[1], s) /\ GolombLength(r.args[1], s) <= r.args[2]
     [] r.name = "bibd"            -> IsBIBD(r.args, s)
     [] r.name = "schur"           -> IsSchur(r.args[1], s)
     [] r.name = "knapsack"        -> IsKnapsack(r.args, s)
@@ -168,8 +169,13 @@ Valid(r, s) ==
 \* counts of ALL objects (no symmetry breaking), from the literature; -1 = not tabulated
 KnownQueens == <<1, 0, 0, 2, 10, 4, 40, 92, 352, 724>>
 KnownLatin  == <<1, 2, 12, 576, 161280>>
+\* number of Golomb rulers with m marks (the first at 0) and a length <= bound, by brute force over the mark sets
+GolombRulers(m, bound) ==
+  Cardinality({S \in SUBSET (1..bound) : Cardinality(S) = m - 1 /\
+                 LET M == S \cup {0} IN \A a, b, c, d \in M : (a < b /\ c < d /\ <<a, b>> # <<c, d>>) => b - a # d - c})
 KnownCount(r) ==
-  CASE r.name = "queens" /\ r.args[1] <= 10 -> KnownQueens[r.args[1]]
+  CASE r.name = "golomb_bounded" /\ ~r.sb /\ r.args[2] <= 13 -> GolombRulers(r.args[1], r.args[2])
+    [] r.name = "queens" /\ r.args[1] <= 10 -> KnownQueens[r.args[1]]
     [] r.name = "latin_square" /\ Len(r.args[1]) <= 5 -> KnownLatin[Len(r.args[1])]
     [] r.name = "latin_square_rc" /\ r.args[1] <= 5 -> KnownLatin[r.args[1]]
     [] r.name = "magic_square" /\ r.args[1] = 3 -> IF r.sb THEN 1 ELSE 8
